@@ -683,7 +683,12 @@ def summarized_pred(E, clo, r):
     h = E.hooks.get('read')
     if h: h(*nav(r))
     if v.__class__ is IntV and not v.conc() and v.v.var is not None and v.w == 8:
-        key = ('clo', E.P.name, clo.name, v.v.tid)
+        envkey = None
+        if clo.env is not None:
+            # a generic closure is shared by all instantiations: what it captured is part of its identity
+            envkey = tuple(x.name if x.__class__ is FnV and x.env is None else None for x in clo.env)
+            if None in envkey: return call_closure(E, clo, [r])       # captures data: not summarised
+        key = ('clo', E.P.name, clo.name, envkey, v.v.tid)
         res = E.summary_cache.get(key)
         if res is None:
             res = E.summarize_generic(lambda node: call_closure(E, clo, [Ref([IntV(8, node)], (0,), None, 'local')]), v.v)
